@@ -179,7 +179,7 @@ func SameDynType(a, b interface{}) bool { return true }
 func EqBytes(a, b []byte) bool       { return string(a) == string(b) }
 func EqString(a, b string) bool      { return a == b }
 func Yield()                         {}
-func WaitQuiescent()                 { time.Sleep(20 * time.Millisecond) }
+func WaitQuiescent() { waitQuiescent() }
 func MustFinish()                    {}
 func MayBlock()                      {}
 // GlobalWrites: number of stores to package-level variables of kit packages so far (engine only; natively 0)
@@ -441,4 +441,60 @@ func Sched(site string, n int) {
 		schedCond.Wait()
 		t.Stop()
 	}
+}
+
+// waitQuiescent (native): in the engine the caller continues only when every other thread is blocked or done. Natively
+// the goroutines registered with the replay controller are sampled through runtime.Stack: the caller continues once
+// none of them is running or runnable in two consecutive samples (bounded by 2 s). Without registered goroutines: a
+// short sleep.
+func waitQuiescent() {
+	me := goid()
+	deadline := time.Now().Add(2 * time.Second)
+	stable := 0
+	for time.Now().Before(deadline) {
+		time.Sleep(3 * time.Millisecond)
+		if othersBlocked(me) {
+			stable++
+			if stable >= 3 {
+				return
+			}
+		} else {
+			stable = 0
+		}
+	}
+}
+
+func othersBlocked(me uint64) bool {
+	schedMu.Lock()
+	ids := map[uint64]bool{}
+	for g := range goids {
+		if g != me {
+			ids[g] = true
+		}
+	}
+	schedMu.Unlock()
+	if len(ids) == 0 {
+		time.Sleep(5 * time.Millisecond)
+		return true
+	}
+	buf := make([]byte, 1<<20)
+	n := runtime.Stack(buf, true)
+	for _, blk := range bytes.Split(buf[:n], []byte("\n\n")) {
+		if !bytes.HasPrefix(blk, []byte("goroutine ")) {
+			continue
+		}
+		f := bytes.Fields(blk)
+		if len(f) < 3 {
+			continue
+		}
+		id, _ := strconv.ParseUint(string(f[1]), 10, 64)
+		if !ids[id] {
+			continue
+		}
+		st := string(f[2])
+		if st == "[running]:" || st == "[runnable]:" || st == "[running," || st == "[runnable," || st == "[syscall]:" || st == "[sleep]:" || st == "[sleep," {
+			return false
+		}
+	}
+	return true
 }
